@@ -4,6 +4,8 @@ import json, glob, os
 rows = []
 for f in sorted(glob.glob('/verif/seeded/*/meta.json')):
     m = json.load(open(f))
+    if m.get('kind') == 'behaviour-preserving':
+        continue
     patch = open(os.path.join(os.path.dirname(f), 'patch.diff')).read()
     files = sorted(set(l[6:] for l in patch.splitlines() if l.startswith('+++ b/')))
     checks = m.get('checks_run_with_change_applied', {})
@@ -18,10 +20,24 @@ import sys
 lines = ["| seed | property | file(s) changed | demo confirmed | quick checks run with the change applied |", "|---|---|---|---|---|"]
 for r in rows:
     lines.append("| " + " | ".join(r) + " |")
+# behaviour-preserving changes (false-alarm tests)
+rlines = ["| change | file(s) | quick checks run with the change applied (all must exit 0) | alarms |", "|---|---|---|---|"]
+for f in sorted(glob.glob('/verif/seeded/*/meta.json')):
+    m = json.load(open(f))
+    if m.get('kind') != 'behaviour-preserving' or 'checks_run_with_change_applied' not in m:
+        continue
+    cs = m['checks_run_with_change_applied']
+    rlines.append("| %s | %s | %s | %s |" % (m['seed'], ', '.join(m['files']), ' '.join(cs.keys()), ', '.join("%s exit %d" % (p, cs[p]['exit']) for p in m.get('false_alarms', [])) or 'none'))
 if '--update-design' in sys.argv:
     d = open('/verif/DESIGN.md').read()
     b, e = '<!-- SEEDTABLE:BEGIN -->', '<!-- SEEDTABLE:END -->'
     i, j = d.index(b) + len(b), d.index(e)
-    open('/verif/DESIGN.md', 'w').write(d[:i] + "\n" + "\n".join(lines) + "\n" + d[j:])
+    d = d[:i] + "\n" + "\n".join(lines) + "\n" + d[j:]
+    b, e = '<!-- REFTABLE:BEGIN -->', '<!-- REFTABLE:END -->'
+    if b in d:
+        i, j = d.index(b) + len(b), d.index(e)
+        d = d[:i] + "\n" + "\n".join(rlines) + "\n" + d[j:]
+    open('/verif/DESIGN.md', 'w').write(d)
 else:
     print("\n".join(lines))
+    print("\n".join(rlines))
